@@ -171,8 +171,9 @@ fn scale2(op: &str, x: f64, y: f64, v: Option<f64>) -> f64 {
 /// operations whose integer instances are "the f64 function, converted back" (judged against the reference also for
 /// integer element types; seeded change C04i: subtract on unsigned types)
 const INT_REF2: [&str; 6] = ["add", "subtract", "multiply", "hypot", "power", "float_power"];
-const INT_REF1: [&str; 20] = ["positive", "negative", "abs", "absolute", "fabs", "square", "sqrt", "cbrt", "exp", "exp2", "floor", "ceil",
-    "log", "log2", "log10", "log_1p", "exp_m1", "trunc", "fix", "rint"];
+const INT_REF1: [&str; 24] = ["positive", "negative", "abs", "absolute", "fabs", "square", "sqrt", "cbrt", "exp", "exp2", "floor", "ceil",
+    "log", "log2", "log10", "log_1p", "exp_m1", "trunc", "fix", "rint",
+    "degrees", "radians", "deg2rad", "rad2deg"];
 fn ref_tag<N>() -> &'static str { if std::any::type_name::<N>() == "f32" { "ref32" } else { "ref" } }
 fn is_float<N>() -> bool { matches!(std::any::type_name::<N>(), "f64" | "f32") }
 /// reference for an INTEGER element type: the f64 reference converted the way the library converts (truncation,
@@ -544,6 +545,21 @@ pub fn dispatch(op: &str, ty: &str, args: &[Arg]) -> Option<String> {
         "frexp" | "ldexp" | "frexp_ldexp" => frexp_ops(op, args),
         // trim_zeros on float pools: the answer must be a slice input[i..j] of the input (compared bit by bit); the
         // harness answers with i and j (seeded change C13n: a NaN at either end was trimmed like a zero)
+        // unique on float pools without NaN: the answer is strictly increasing and has one entry per distinct VALUE
+        // (0.0 and -0.0 are one value) — seeded change C10p deduplicated by the printed form
+        "uniqz" => {
+            fn uq<N: Elem + PartialOrd>(pool: bool, args: &[Arg]) -> Option<String> {
+                let (s1, e1) = match args { [Arg::A(s1, e1)] => (s1, e1), _ => return None };
+                let a = mkn::<N>(pool, s1, e1)?;
+                Some(match a.unique(None) {
+                    Err(e) => err_str(&e),
+                    Ok(r) => { if let Some(v) = wf_violation(&r) { return Some(v) }
+                        let es = r.get_elements().ok()?;
+                        let inc = es.windows(2).all(|w| w[0] < w[1]);
+                        format!("l({},{})", es.len(), inc as i32) } })
+            }
+            num_type!(ty, N, pool, uq::<N>(pool, args))
+        }
         "trimz" => {
             fn tz<N: Elem>(pool: bool, args: &[Arg]) -> Option<String> {
                 let (s1, e1) = match args { [Arg::A(s1, e1)] => (s1, e1), _ => return None };
